@@ -3,7 +3,7 @@ C02, C06, C14, C15."""
 import z3
 
 from pyvc.contracts import Any, Bool, Const, ExtSpec, ExtT, Int, ListOfT, LoopSpec, MapT, ObjT, OptT, SetT, Str
-from pyvc.values import ExcV, FStr, Opaque, Opt, PartialV, Ref, U
+from pyvc.values import ExcV, FStr, Opaque, Opt, PartialV, Ref, U, fresh_name
 
 from .a_submit import EXTRA, UT
 from .a_tasks import calls, exts, flat, index_of, trivial_loop
@@ -44,6 +44,7 @@ def register(R):
     R.contract(f'{L}:random_file_extension', params=dict(num_digits=Int), returns=ExtT('str'), events=False)
 
     register_uploader_filters(R)
+    register_ranged_downloader(R)
 
     # ------------------------------------------------------------------ download_file: temp + rename / remove
     R.contract(f'{S3T}._download_file', params=dict(bucket=ExtT('str'), key=ExtT('str'), filename=Any, object_size=Int,
@@ -107,7 +108,7 @@ def register(R):
     cdf.raises = {'Exception': lambda c: {}}
 
     # ------------------------------------------------------------------ ranged download: extra args reach every GET
-    R.add_fields(MPD, _client=ExtT('client'), _config=ObjT(LCFG), _os=ObjT(f'{L}:OSUtils'), _executor_cls=ExtT('executor_cls'),
+    R.add_fields(MPD, _client=ExtT('client'), _config=ObjT(LCFG), _os=ObjT(f'{L}:OSUtils'), _executor_cls=ExtT('legacy_executor_cls'),
                  _ioqueue=ExtT('ioqueue'))
     R.external('ioqueue', put=ExtSpec(raises=('Exception', 'OSError'), blocking=True), get=ExtSpec(returns=Any, raises=()),
                trigger_shutdown=ExtSpec(raises=()))
@@ -188,7 +189,53 @@ def register_uploader_filters(R):
                     extra_params=dict(allowed=SetT('Str')), optional=True)
 
 
-LEGACY_C06 = [f'{S3T}.download_file']
+def register_ranged_downloader(R):
+    """MultipartDownloader.download_file: a parts thread and an IO thread; it returns normally only if BOTH finished
+    without an exception (else the caller would publish a partially written temp file, C06 / C03)."""
+    from pyvc.models import FUTURE_FAILED
+    R.external('legacy_executor_cls', **{'()': ExtSpec(returns=ExtT('legacy_executor'), raises=())})
+    R.external('legacy_executor', __enter__=ExtSpec(returns=lambda eng, st, recv, a, k: recv, pure=True), __exit__=ExtSpec(raises=()),
+               submit=ExtSpec(returns=ExtT('legacy_future'), raises=()),
+               map=ExtSpec(returns=ExtT('map_iterator'), raises=()))
+    R.external('legacy_future', result=ExtSpec(
+        returns=lambda eng, st, recv, a, k: (st.assume(z3.Not(FUTURE_FAILED(recv.term))), Opaque(fresh_name('future_result')))[1],
+        raises=('Exception',), on_raise=lambda eng, st, recv, a, k, exc: st.assume(FUTURE_FAILED(recv.term))))
+
+    def dlf_common(c):
+        sub = [e for e in c.trace if e.kind == 'ext' and e.name == 'legacy_executor.submit']
+        return sub
+
+    def is_partial_of(v, name, nargs):
+        return isinstance(v, PartialV) and getattr(getattr(v.func, 'finfo', None), 'name', None) == name and len(v.args) == nargs
+
+    def dlf_checks(c):
+        sub = dlf_common(c)
+        okshape = len(sub) == 2 and all(len(e.args) == 1 for e in sub)
+        out = {'a_parts_thread_and_an_io_thread_are_started': (B(bool(
+            okshape and is_partial_of(sub[0].args[0], '_download_file_as_future', 6) and is_partial_of(sub[1].args[0], '_perform_io_writes', 1))), ['C06', 'C02'])}
+        if okshape:
+            out['returns_normally_only_if_both_threads_finished_without_an_exception'] = (
+                z3.And([z3.Not(FUTURE_FAILED(e.result.term)) for e in sub]), ['C06', 'C03', 'C02'])
+            p0 = sub[0].args[0]
+            if isinstance(p0, PartialV) and len(p0.args) == 6:
+                out['parts_thread_gets_the_users_arguments'] = (B(
+                    p0.args[0] is c.a_bucket and p0.args[1] is c.a_key and p0.args[2] is c.a_filename and p0.args[3] is c.a_object_size
+                    and p0.args[4] is c.a_extra_args and p0.args[5] is c.a_callback), ['C15', 'C02'])
+            p1 = sub[1].args[0]
+            if isinstance(p1, PartialV) and len(p1.args) == 1:
+                out['io_thread_writes_the_given_file'] = (B(p1.args[0] is c.a_filename), ['C06'])
+        return out
+
+    R.contract(
+        f'{MPD}.download_file', props=['C06', 'C03', 'C02', 'C15'],
+        params=dict(bucket=ExtT('str'), key=ExtT('str'), filename=ExtT('str'), object_size=Int, extra_args=EXTRA,
+                    callback=OptT(ExtT('legacy_cb'))),
+        checks=dlf_checks, raises={'Exception': lambda c: {}}, raise_when={'Exception': lambda c: None},
+        inline_callees=[f'{MPD}._process_future_results'],
+    )
+
+
+LEGACY_C06 = [f'{S3T}.download_file', f'{MPD}.download_file']
 LEGACY_C14 = [f'{S3T}._download_file']
 LEGACY_C15 = [f'{S3T}.download_file', f'{S3T}._download_file', f'{MPD}._download_range', f'{MPU}.upload_file',
               f'{MPU}._extra_upload_part_args', f'{MPU}._extra_args_for']
